@@ -200,7 +200,7 @@ def resolver_arms(ctx, rid):
         syms = arm_syms(arm["pat"])
         syms[ty_id] = "TY"
         t = N.term(arm["body"], syms)
-        exp = "TypeGenerator::type_path_maybe_with_substitutes(P0,TY.path,Iterator::collect(Iterator::filter_map(TY.type_params,|1|{Some(%s)}))?)" % RECNQ("C1_0.ty?.id")
+        exp = "TypeGenerator::type_path_maybe_with_substitutes(P0,TY.path,vec+(for(TY.type_params){if(let v1::Some($)=elem(TY.type_params).ty){%s?}else{'()'}}))" % RECNQ("elem(TY.type_params).ty@v1::Some.0.id")
         expect_term(ctx, rid, "resolver/%s.path" % v, arm, t, exp, "struct/enum reference: own path + non-skipped type params resolved in order (order-preserving filter_map)")
     # result wrapping
     body_t = N.term(fn["body"], {ty_id: "TY"})
@@ -773,12 +773,13 @@ def definition_predicate(ctx, rid, require_skip_substituted=True):
     E = "elem(P0.type_registry.types)"
     FLAT = "DerivesRegistry::flatten_recursive_derives(P0.settings.derives,P0.type_registry)?"
     IR = "TypeGenerator::create_type_ir(P0,%s.ty,%s)?" % (E, FLAT)
-    exp = ("early{TypeSubstitutes::contains(P0.settings.substitutes,%s.ty.path.segments)=>continue;slice::is_empty(Path::namespace(%s.ty.path))=>continue}"
-           "if(let v1::Some($)=%s){match(BTreeMap::entry(ModuleIR::get_or_insert_submodule(ROOT,Path::namespace(%s.ty.path)).types,%s.ty.path)){%s}}else{'()'}") % (E, E, IR, E, E, ANY)
+    exp = ("if(TypeSubstitutes::contains(P0.settings.substitutes,%s.ty.path.segments)){'()'}else{if(slice::is_empty(Path::namespace(%s.ty.path))){'()'}else{"
+           "if(let v1::Some($)=%s){match(BTreeMap::entry(ModuleIR::get_or_insert_submodule(ROOT,Path::namespace(%s.ty.path)).types,%s.ty.path)){%s}}else{'()'}}}") % (E, E, IR, E, E, ANY)
     exps = [exp]
     if not require_skip_substituted:
         # defining a substituted type as well leaves the module closed (an unreferenced extra item)
-        exps.append(exp.replace("TypeSubstitutes::contains(P0.settings.substitutes,%s.ty.path.segments)=>continue;" % E, ""))
+        exps.append(("if(slice::is_empty(Path::namespace(%s.ty.path))){'()'}else{"
+                     "if(let v1::Some($)=%s){match(BTreeMap::entry(ModuleIR::get_or_insert_submodule(ROOT,Path::namespace(%s.ty.path)).types,%s.ty.path)){%s}}else{'()'}}") % (E, IR, E, E, ANY))
     expect_term(ctx, rid, "define/predicate-and-placement", site(loop), t, exps,
                 "an item is defined iff the path is not substituted, has a namespace (>= 2 segments) and the definition is a struct/enum; "
                 "it is placed in root.get_or_insert_submodule(namespace) under its full path")
